@@ -100,4 +100,15 @@ void l_crc32_chain(void) {
     VERIF_REACH();                                                                                             \
   }
 FNV(32, uint32_t, g_h32)
+#define FNVSTR(W, T, GH)                  \
+  void h_fnv1a##W##_str(void) {           \
+    T in_hash;                            \
+    const C10_str* s;                     \
+    GH = in_hash;                         \
+    g_n = 0;                              \
+    fnv1a##W##_str(s, in_hash);           \
+    VERIF_REACH();                        \
+  }
+FNVSTR(32, uint32_t, g_h32)
+FNVSTR(64, uint64_t, g_h64)
 FNV(64, uint64_t, g_h64)
